@@ -954,28 +954,43 @@ pub fn seed_records(tier: Tier) -> Vec<(Shape, Vec<u8>)> {
         .collect()
 }
 
-/// Generates the structural (re-signed) case set: d = 1, and d = 2 in the thorough tier.
-pub fn structural_cases(tier: Tier) -> Vec<Case> {
-    let mut cases: Vec<Case> = empty_and_tiny();
+/// Feeds the structural (re-signed) case set to `sink` in bounded chunks: d = 1 for every base
+/// shape, and d = 2 (thorough tier) for the minimal and all-reserved shapes.
+pub fn for_each_structural_chunk(tier: Tier, mut sink: impl FnMut(Vec<Case>)) {
+    sink(empty_and_tiny());
+    let second_level_ok = |l: &str| !l.starts_with("insert-pair") && !l.starts_with("insert-sorted") && !l.starts_with("size=");
     for s in base_shapes(tier) {
+        let mut cases: Vec<Case> = vec![];
         cases.extend(resigned(&s, Outer::Canonical, &format!("{}/seed", s.label), 0));
         let muts = structural_mutants(&s, tier);
         for (m, outer, l) in &muts {
             cases.extend(resigned(m, *outer, &format!("{}/{l}", s.label), 1));
         }
+        sink(cases);
         if tier == Tier::Thorough && (s.label.ends_with(":minimal") || s.label.ends_with(":all-reserved")) {
-            // d = 2: every ordered pair (first deviation from the non-insertion operators) x (all operators)
-            for (m, outer, l) in muts.iter().filter(|(_, o, l)| *o == Outer::Canonical && !l.starts_with("insert-pair") && !l.starts_with("size=")) {
+            // d = 2: every ordered pair (first deviation from the non-insertion operators) x (all non-insertion operators)
+            let mut chunk: Vec<Case> = vec![];
+            for (m, outer, l) in muts.iter().filter(|(_, o, l)| *o == Outer::Canonical && second_level_ok(l)) {
                 if m.items.len() < 3 {
                     continue;
                 }
-                for (m2, o2, l2) in structural_mutants(m, Tier::Quick).into_iter().filter(|(_, _, l2)| !l2.starts_with("insert-pair") && !l2.starts_with("size=")) {
-                    cases.extend(resigned(&m2, o2, &format!("{}/{l}+{l2}", s.label), 2));
+                for (m2, o2, l2) in structural_mutants(m, Tier::Quick).into_iter().filter(|(_, _, l2)| second_level_ok(l2)) {
+                    chunk.extend(resigned(&m2, o2, &format!("{}/{l}+{l2}", s.label), 2));
+                }
+                if chunk.len() > 200_000 {
+                    sink(std::mem::take(&mut chunk));
                 }
             }
+            sink(chunk);
         }
     }
-    cases
+}
+
+/// The whole structural case set at once (quick tier only: it is small there).
+pub fn structural_cases(tier: Tier) -> Vec<Case> {
+    let mut all = vec![];
+    for_each_structural_chunk(tier, |c| all.extend(c));
+    all
 }
 
 pub fn authenticity_cases(tier: Tier) -> Vec<Case> {
@@ -1047,6 +1062,7 @@ pub fn run_cases(cases: &[Case], rep: &mut Report, also_text: impl Fn(&Case) -> 
         }
         rep.viols.extend(j.viols);
         rep.viols.extend(tv);
+        rep.compact_if_large();
         if i % 7919 == 11 {
             rep.stats.sample(json!({"label": cases[i].label, "deviations": cases[i].devs, "input_hex": hex::encode(&cases[i].bytes)}));
         }
